@@ -628,13 +628,16 @@ func init() {
 	}})
 	// An operation that allocates an index block and then fails for lack of a second block must give the first one
 	// back everywhere (allocator, cached inode); the number must not stay in the cached inode and reach the disk later.
-	for _, variant := range []string{"write", "read", "writespan"} {
+	for _, variant := range []string{"write", "read", "writespan", "writegrow"} {
 		variant := variant
 		Probes = append(Probes, Probe{"indirect-" + variant + "-with-one-block-free", []string{"C04", "C05", "C09", "C10"}, 1700, func(p *P) {
 			g := p.Create(p.Root, "g").RFh // no indirect block yet
 			p.Write(g, 0, 100, 2)
 			if variant == "read" {
 				p.Trunc(g, 20*4096) // sparse: reading a hole maps a block
+			}
+			if variant == "writegrow" { // blocks 0..7 mapped, the file ends there
+				p.Write(g, 0, 8*4096, 2)
 			}
 			if variant == "writespan" { // blocks 0..7 mapped, the size covers a hole in the indirect range
 				p.Write(g, 0, 8*4096, 2)
@@ -656,6 +659,12 @@ func init() {
 			}
 			if variant == "read" {
 				p.Read(g, 8*4096, 100)
+			} else if variant == "writegrow" {
+				p.Write(g, 7*4096+100, 2*4096, 2) // grows across the boundary of the indirect range: short write
+				p.Remove(p.Root, "g")              // the index block allocated beyond the new size must go too
+				p.S.WaitIdle()
+				p.T.Emit(TakeSnap(p.S, "run", true))
+				g = p.Create(p.Root, "g").RFh
 			} else if variant == "writespan" {
 				p.Write(g, 7*4096, 2*4096, 2) // starts in a mapped block and runs into the hole: short write
 			} else {
